@@ -657,6 +657,36 @@ def add_unmodelled(rng, st, tv):
 
 
 # =============================================================================== cases
+LIMITS = {}     # filled from the regenerated constants (Gen/Consts_gen.v) by run()
+
+
+def limit_cases(tier, rng):
+    """lists exactly at the parser's CARQUET_MAX_* limits (must round-trip) and one above (the writer accepts them, the
+    parser must refuse them with an error): -> (at_limit [(st, m)], above [(st, m)])"""
+    zse = lambda: R([0, 0, 0, 0, 0, None, 0, 0, 0, 0, 0, 0, 0, 0, ZLT()])
+    zcc = lambda: R([None, 0, 0, ZCM(), 0, 0, 0, 0, 0, 0, 0, 0])
+    zrg = lambda cols: R([A(cols), 0, 0, 0, 0, 0, 0, 0, 0])
+    fm = lambda schema=(), rgs=(), kv=(): R([1, A(list(schema)), 0, A(list(rgs)), A(list(kv)), None])
+
+    def cm_with(slot, items):
+        c = ZCM()
+        c[slot] = A(items)
+        cc = zcc()
+        cc[2], cc[3] = 1, c
+        return fm(rgs=[zrg([cc])])
+    at, above = [], []
+    for d in (0, 1):
+        dst = above if d else at
+        dst.append(("fm", cm_with(1, [rng.choice([0, 3, 8]) for _ in range(LIMITS["ENCODINGS"] + d)])))
+        dst.append(("fm", cm_with(2, [b"p"] * (LIMITS["PATH_ELEMENTS"] + d))))
+        dst.append(("fm", fm(kv=[R([b"k", None])] * (LIMITS["KEY_VALUE_PAIRS"] + d))))
+        dst.append(("fm", fm(schema=[zse() for _ in range(LIMITS["SCHEMA_ELEMENTS"] + d)])))
+        dst.append(("fm", fm(rgs=[zrg([zcc() for _ in range(LIMITS["COLUMNS_PER_RG"] + d)])])))
+        if tier == "thorough":
+            dst.append(("fm", fm(rgs=[zrg([]) for _ in range(LIMITS["ROW_GROUPS"] + d)])))
+    return at, above
+
+
 def gen_struct_cases(tier, rng):
     """[(st, m)]"""
     out = []
@@ -807,7 +837,19 @@ def prim_cases(tier, rng):
         L.append("ruuid 0 0 %s" % (bytes(range(1, k + 1)).hex() or "-"))
     L += ["wbool 0", "wbool 1", "limits", "nullargs"] + ["tname %d" % k for k in range(-1, 18)]
     for b in (0, 1, 2, 3, 255):
-        L.append("rbool 0r 0 %02x" % b)
+        for lvl in ("0", "0r"):
+            li = "rbool %s 0 %02x" % (lvl, b)
+            L.append(li)
+            if b in (0, 1, 2):          # the three legal boolean element bytes
+                PRIM_EXPECT[li] = "OK %d 1" % (1 if b == 1 else 0)
+    # struct begin/end bookkeeping: ends without a begin must leave the level at 0, the limit is 32
+    for k, j in ((0, 0), (0, 1), (0, 3), (1, 1), (1, 2), (2, 1), (3, 5), (31, 31), (32, 32), (32, 33)):
+        li = "rlevel %d 0 - %d" % (k, j)
+        L.append(li)
+        PRIM_EXPECT[li] = "OK %d 0" % max(0, k - j)
+        li = "wlevel %d %d" % (k, j)
+        L.append(li)
+        PRIM_EXPECT[li] = "OK %s %d" % ("00" * j or "-", max(0, k - j))
     for _ in range(12):
         u = bytes(rng.getrandbits(8) for _ in range(16))
         L.append("wuuid " + u.hex())
@@ -867,15 +909,22 @@ def prim_cases(tier, rng):
 
 # =============================================================================== the check
 def canon_model_parse(st, text, mask_lt=False, members=True):
-    m = mparse(text)
-    return mtext(view_fm(m, mask_lt) if st == "fm" else view_ph(m, members))
+    """canonical view of a parsed structure; driver output that is not a structure of the expected shape can never
+    compare equal to an expectation (so it is reported with its case, not raised)"""
+    try:
+        m = mparse(text)
+        return mtext(view_fm(m, mask_lt) if st == "fm" else view_ph(m, members))
+    except Exception as ex:
+        return "UNPARSABLE(%s): %s" % (type(ex).__name__, text[:200])
 
 
 def canon_impl_parse(st, text, mask_lt=False, members=True):
-    m = mparse(text)
-    if st == "fm":
-        return mtext(view_fm(m, mask_lt))
-    return mtext(view_ph(m, members))
+    return canon_model_parse(st, text, mask_lt, members)
+
+
+def num(tok):
+    """a decimal token of a result line, or -1"""
+    return int(tok) if tok.isdigit() else -1
 
 
 def union_hints(st, data):
@@ -1090,7 +1139,26 @@ def run(tier):
             rep.tie_broken(f"model and implementation differ on a primitive: impl {a[:200]} / model {b[:200]}", li)
 
     # ------------------------------------------------------------------ 2. structures
-    cases = gen_struct_cases(tier, rng)
+    ctext = (vlib.COQ / "theories" / "Gen" / "Consts_gen.v").read_text()
+    for k in ("SCHEMA_ELEMENTS", "ROW_GROUPS", "COLUMNS_PER_RG", "KEY_VALUE_PAIRS", "ENCODINGS", "PATH_ELEMENTS", "ENCODING_STATS"):
+        LIMITS[k] = int(re.search(r"Pq_CARQUET_MAX_%s : N := (\d+)" % k, ctext).group(1))
+    at_limit, above_limit = limit_cases(tier, rng)
+    cases = gen_struct_cases(tier, rng) + at_limit
+    # one element more than the parser's limit: written, then refused by the parser with an error (never a crash,
+    # never a truncated structure); model and implementation agree on the status
+    over_lines = ["rt%s %s" % (st, mtext(m)) for st, m in above_limit]
+    oi, po1 = run_sharded(drv, over_lines)
+    om, po2 = run_sharded(run_, over_lines)
+    for pr in po1:
+        rep.violation(f"implementation died on a list one above a CARQUET_MAX_* limit (rc={pr[1]}): {pr[2][-600:]}", {"kind": "line", "case": (pr[3] or "")[:200000], "expect": "no crash"})
+    for li, a, b in zip(over_lines, oi, om):
+        rep.count(li[:300])
+        bump("limit:above")
+        at_ = a.split()
+        if len(at_) != 4 or at_[0] != "OK" or at_[2] != "ERR":
+            rep.violation(f"a list one above the parser's limit is not refused: {a[:60]} ... {a[-60:]}", {"kind": "line", "case": li[:200000], "expect": "ERR"})
+        if a != b:
+            rep.tie_broken(f"model and implementation differ above a limit: impl ...{a[-40:]} / model ...{b[-40:]}", li[:300])
     rt_lines = ["rt%s %s" % (st, mtext(m)) for st, m in cases]
     lap("gen structures (%d)" % len(rt_lines))
     impl, p1 = run_sharded(drv, rt_lines)
@@ -1112,8 +1180,12 @@ def run(tier):
         if len(at) != 5 or at[0] != "OK" or at[2] != "OK":
             rep.violation(f"write+parse of a generated {st} structure failed: {a[:300]}", rp)
             continue
-        data = bytes.fromhex(at[1]) if at[1] != "-" else b""
-        if int(at[3]) != len(data):
+        try:
+            data = bytes.fromhex(at[1]) if at[1] != "-" else b""
+        except ValueError:
+            rep.violation(f"{st}: the bytes reported by the driver are not hexadecimal: {at[1][:80]}", rp)
+            continue
+        if num(at[3]) != len(data):
             rep.violation(f"{st}: bytes consumed by the parser ({at[3]}) != bytes produced by the writer ({len(data)})", rp)
         got = canon_impl_parse(st, at[4])
         if got != want:
@@ -1200,6 +1272,18 @@ def run(tier):
                 # at top level (1 struct open) and inside the deepest known struct
                 tv2 = ('struct', tv[1] + [(100, v)])
                 ind.append((st, "p%s %s" % (st, tr.enc_struct(tv2).hex()), skip_ok(v, 0, 1), mtext(NORM[st](m)), None, m))
+    # parse-only lists at and above their limits (only an independent encoder produces them)
+    for slot, lim in ((15, LIMITS["ENCODING_STATS"]), (7, LIMITS["KEY_VALUE_PAIRS"])):
+        for d in (0, 1):
+            c = ZCM()
+            c[slot] = A([R([1, 2, 3]) if slot == 15 else R([b"k", None]) for _ in range(lim + d)])
+            cc = R([None, 0, 1, c, 0, 0, 0, 0, 0, 0, 0, 0])
+            m = R([1, A([]), 0, A([R([A([cc]), 0, 0, 0, 0, 0, 0, 0, 0])]), A([]), None])
+            FULL[0] = True
+            try:
+                ind.append(("fm", "pfm %s" % tr.enc_struct(tv_fm(m)).hex(), d == 0, mtext(norm_fm(m)), None, m))
+            finally:
+                FULL[0] = False
     # the F9 witness: 200 KB of 0x19 as an unknown field
     big = b"\x09\x28" + b"\x19" * 200000 + b"\x03\x00"
     ind.append(("ph", "pph " + big.hex(), False, "", None, None))
@@ -1228,14 +1312,14 @@ def run(tier):
                               f"(long-form headers / padded varints / unknown fields): {a[:200]}", rp)
             else:
                 got = canon_impl_parse(st, at[2])
-                if int(at[1]) != len(data_hex) // 2:
+                if num(at[1]) != len(data_hex) // 2:
                     rep.violation(f"{st}: consumed {at[1]} of {len(data_hex) // 2} bytes of an independently encoded message", rp)
                 if got != want:
                     rep.violation(f"{st}: carquet parses an independently encoded message to a different structure: {first_diff(got, want)}", rp)
                 valid_bytes.append((st, bytes.fromhex(data_hex)))
         else:
             if at[:1] != ["ERR"]:
-                rep.violation(f"{st}: nesting beyond the limit must be refused with an error, got {a[:120]}", rp)
+                rep.violation(f"{st}: nesting or a list size beyond the parser's limit must be refused with an error, got {a[:120]}", rp)
         if a.split()[:2] != b.split()[:2] or (at[:1] == ["OK"] and canon_model_parse(st, b.split()[2]) != canon_impl_parse(st, at[2])):
             rep.tie_broken(f"model parser differs from carquet's on independently encoded bytes: impl {a[:160]} / model {b[:160]}", li[:3000])
 
@@ -1345,7 +1429,7 @@ def replay(path):
         want = mtext(NORM[st](m))
         got = canon_impl_parse(st, at[4])
         print("expected parse(write(m)):", want[:3000])
-        bad = got != want or int(at[3]) != len(data)
+        bad = got != want or num(at[3]) != len(data)
         try:
             v, n = tr.decode_struct(data)
             print("independent decoder:", tr.to_text(v)[:3000])
